@@ -435,7 +435,19 @@ func (ev *evaluator) eval(fr *evalFrame, v ssa.Value, depth int) (interface{}, b
 							if cnt == 1 {
 								return ev.eval(fr.parent, stored, depth+1)
 							}
+							// assigned more than once: what it holds where the literal is called
+							if cell.Parent() == fr.parent.fn && !isAggregate(cell) {
+								return ev.cellValueAt(fr.parent, cell, fr.call.Block(), fr.call, depth+1)
+							}
 						}
+					}
+				}
+				return nil, false
+			case *ssa.Alloc:
+				// a local variable that lives in memory, read outside a walk: what it holds where the load stands
+				if addr.Parent() == fr.fn && !isAggregate(addr) {
+					if v, ok := ev.cellValueAt(fr, addr, x.Block(), x, depth+1); ok {
+						return v, true
 					}
 				}
 				return nil, false
